@@ -102,6 +102,43 @@ pub fn consolidate_to_current(updates: &mut Vec<Update>) {
     updates.truncate(write_idx);
 }
 
+/// Current contents of a relation whose writers apply *set* semantics.
+///
+/// The storage engine treats a relation as a set: inserting a tuple that is already
+/// present and deleting one that is absent are no-ops in memory, yet both are logged
+/// (+1 / -1) like any other request. Summing diffs therefore does not reproduce the
+/// live state (`+t, +t, -t` sums to +1 although `t` was deleted). Under set semantics
+/// the state of a tuple is decided by the request with the greatest logical time:
+/// present after an insert, absent after a delete.
+pub fn to_current_set(updates: &[Update]) -> Vec<Tuple> {
+    let mut sorted: Vec<&Update> = updates.iter().collect();
+    sorted.sort_by(|a, b| match a.data.cmp(&b.data) {
+        std::cmp::Ordering::Equal => a.time.cmp(&b.time),
+        other => other,
+    });
+
+    let mut result = Vec::new();
+    let mut i = 0;
+    while i < sorted.len() {
+        // [i, j) = all updates of one tuple, ascending in time
+        let mut j = i + 1;
+        while j < sorted.len() && sorted[j].data == sorted[i].data {
+            j += 1;
+        }
+        let last_time = sorted[j - 1].time;
+        let net: i64 = sorted[i..j]
+            .iter()
+            .filter(|u| u.time == last_time)
+            .map(|u| u.diff)
+            .sum();
+        if net > 0 {
+            result.push(sorted[i].data.clone());
+        }
+        i = j;
+    }
+    result
+}
+
 /// Convert consolidated updates to current tuples.
 ///
 /// Returns only tuples with positive multiplicity (i.e., tuples that exist).
